@@ -73,3 +73,106 @@ package handler
 //@   ensures [refused-403] delta(RtInitErrorRefused) == 1 || delta(RtRestoreErrorRefused) == 1 ==> delta(Render403) == 1 && noSideEffects()
 //@   ensures [accepted-init-error] delta(RtInitError) == 1 && delta(RtInitErrorRefused) == 0 ==> delta(SendInitError) == 1 && delta(Render403) == 0
 //@   ensures [restore-branch-never-sends] delta(RtRestoreError) == 1 ==> delta(SendInitError) == 0
+
+// ---------------------------------------------------------------------------------------------
+// C13: Extensions API handlers. Events are validated before any state change; every refusal is a 403 with the
+// documented error type and nothing else happens; unknown identifiers change nothing and record no fatal error.
+// ---------------------------------------------------------------------------------------------
+
+//@ event Render403Unknown = call rendering.RenderForbiddenWithTypeMsg when a2 == errAgentIdentifierUnknown
+//@ event Render403InvalidState = call rendering.RenderForbiddenWithTypeMsg when a2 == errAgentInvalidState
+//@ event Render403Closed = call rendering.RenderForbiddenWithTypeMsg when a2 == errAgentRegistrationClosed
+//@ event Render403TooMany = call rendering.RenderForbiddenWithTypeMsg when a2 == errTooManyExtensions
+//@ event Render403InvalidEvent = call rendering.RenderForbiddenWithTypeMsg when a2 == errInvalidEventType
+//@ event Render403MissingHeader = call rendering.RenderForbiddenWithTypeMsg when a2 == errAgentMissingHeader
+//@ event RenderAgentEvent = call rendering.(*EventRenderingService).RenderAgentEvent
+//@ event StoreFatal = call appctx.StoreFirstFatalError
+//@ event ExtFound = ret core.(RegistrationService).FindExternalAgentByID when r1
+//@ event IntFound = ret core.(RegistrationService).FindInternalAgentByID when r1
+//@ event ExtNext = call core.(*ExternalAgent).Ready
+//@ event ExtNextRefused = ret core.(*ExternalAgent).Ready when r0 != nil
+//@ event IntNext = call core.(*InternalAgent).Ready
+//@ event IntNextRefused = ret core.(*InternalAgent).Ready when r0 != nil
+//@ event ExtInitErr = call core.(*ExternalAgent).InitError
+//@ event ExtInitErrRefused = ret core.(*ExternalAgent).InitError when r0 != nil
+//@ event IntInitErr = call core.(*InternalAgent).InitError
+//@ event IntInitErrRefused = ret core.(*InternalAgent).InitError when r0 != nil
+//@ event ExtExitErr = call core.(*ExternalAgent).ExitError
+//@ event ExtExitErrRefused = ret core.(*ExternalAgent).ExitError when r0 != nil
+//@ event IntExitErr = call core.(*InternalAgent).ExitError
+//@ event IntExitErrRefused = ret core.(*InternalAgent).ExitError when r0 != nil
+//@ event ExtRegister = call core.(*ExternalAgent).Register
+//@ event ExtRegisterRefused = ret core.(*ExternalAgent).Register when r0 != nil
+//@ event IntRegister = call core.(*InternalAgent).Register
+//@ event IntRegisterRefused = ret core.(*InternalAgent).Register when r0 != nil
+//@ event InvalidExtEvent = ret core.ValidateExternalAgentEvent when r0 != nil
+//@ event InvalidIntEvent = ret core.ValidateInternalAgentEvent when r0 != nil
+//@ event CreateInternal = call core.(RegistrationService).CreateInternalAgent
+//@ event CreateClosed = ret core.(RegistrationService).CreateInternalAgent when r1 == core.ErrRegistrationServiceOff
+//@ event CreateTooMany = ret core.(RegistrationService).CreateInternalAgent when r1 == core.ErrTooManyExtensions
+//@ event CreateCollision = ret core.(RegistrationService).CreateInternalAgent when r1 == core.ErrAgentNameCollision
+//@ event CreateFailed = ret core.(RegistrationService).CreateInternalAgent when r1 != nil
+//@ event RegisterReply = call handler.(*agentRegisterHandler).renderResponse
+//@ event GotMetadata = ret core.(RegistrationService).GetFunctionMetadata
+//@ event ReplyEqualsMetadata = call rendering.RenderJSON when a0 == 200 && typeis(a3, *model.ExtensionRegisterResponse) && a3.(*model.ExtensionRegisterResponse).FunctionName == lastret(GotMetadata).FunctionName && a3.(*model.ExtensionRegisterResponse).FunctionVersion == lastret(GotMetadata).FunctionVersion && a3.(*model.ExtensionRegisterResponse).Handler == lastret(GotMetadata).Handler
+//@ event ReplyJSON = call rendering.RenderJSON
+
+//@ spec agentUntouched() bool = delta(StoreFatal) == 0 && delta(RenderAgentEvent) == 0 && delta(RenderAccepted) == 0
+
+//@ func (*agentNextHandler).ServeHTTP
+//@   ensures [at-most-one-transition] delta(ExtNext) + delta(IntNext) <= 1
+//@   ensures [unknown-id-403] delta(ExtFound) == 0 && delta(IntFound) == 0 && delta(Render403) + delta(Render403Unknown) > 0 ==> delta(ExtNext) + delta(IntNext) == 0 && agentUntouched()
+//@   ensures [refused-403] delta(ExtNextRefused) + delta(IntNextRefused) == 1 ==> delta(Render403InvalidState) == 1 && agentUntouched()
+//@   ensures [accepted-renders-event] delta(ExtNext) + delta(IntNext) == 1 && delta(ExtNextRefused) + delta(IntNextRefused) == 0 ==> delta(RenderAgentEvent) == 1 && delta(Render403) == 0
+
+//@ func (*agentInitErrorHandler).ServeHTTP
+//@   ensures [at-most-one-transition] delta(ExtInitErr) + delta(IntInitErr) <= 1
+//@   ensures [refused-403-no-fatal-error] delta(ExtInitErrRefused) + delta(IntInitErrRefused) == 1 ==> delta(Render403InvalidState) == 1 && agentUntouched()
+//@   ensures [no-transition-no-fatal-error] delta(ExtInitErr) + delta(IntInitErr) == 0 ==> agentUntouched()
+//@   ensures [accepted-stores-fatal-error] delta(ExtInitErr) + delta(IntInitErr) == 1 && delta(ExtInitErrRefused) + delta(IntInitErrRefused) == 0 ==> delta(StoreFatal) == 1 && delta(RenderAccepted) == 1 && delta(Render403) == 0
+
+//@ func (*agentExitErrorHandler).ServeHTTP
+//@   ensures [at-most-one-transition] delta(ExtExitErr) + delta(IntExitErr) <= 1
+//@   ensures [refused-403-no-fatal-error] delta(ExtExitErrRefused) + delta(IntExitErrRefused) == 1 ==> delta(Render403InvalidState) == 1 && agentUntouched()
+//@   ensures [no-transition-no-fatal-error] delta(ExtExitErr) + delta(IntExitErr) == 0 ==> agentUntouched()
+//@   ensures [accepted-stores-fatal-error] delta(ExtExitErr) + delta(IntExitErr) == 1 && delta(ExtExitErrRefused) + delta(IntExitErrRefused) == 0 ==> delta(StoreFatal) == 1 && delta(RenderAccepted) == 1 && delta(Render403) == 0
+
+// register: every event is validated before the state change (the loop invariant collects the validated prefix)
+//@ func (*agentRegisterHandler).registerExternalAgent
+//@   requires agent != nil && registerRequest != nil
+//@   ensures [invalid-event-403-no-register] delta(Render403InvalidEvent) >= 1 ==> delta(Render403InvalidEvent) == 1 && delta(ExtRegister) == 0 && delta(RegisterReply) == 0
+//@   ensures [register-only-validated-events] delta(ExtRegister) >= 1 ==> delta(ExtRegister) == 1 && (forall i int :: 0 <= i && i < len(old(registerRequest.Events)) ==> (old(registerRequest.Events)[i] == "INVOKE" || old(registerRequest.Events)[i] == "SHUTDOWN"))
+//@   ensures [refused-403] delta(ExtRegisterRefused) == 1 ==> delta(Render403InvalidState) == 1 && delta(RegisterReply) == 0
+//@   ensures [accepted-replies] delta(Render403) == 0 ==> delta(ExtRegister) == 1 && delta(ExtRegisterRefused) == 0 && delta(RegisterReply) == 1
+//@   loop range registerRequest.Events: invariant delta(ExtRegister) == 0 && delta(Render403) == 0 && delta(Render403InvalidEvent) == 0 && delta(Render403InvalidState) == 0 && delta(RegisterReply) == 0 && delta(ExtRegisterRefused) == 0 && unchanged(registerRequest.Events) && (forall i int :: 0 <= i && i <= rangeindex ==> (registerRequest.Events[i] == "INVOKE" || registerRequest.Events[i] == "SHUTDOWN"))
+
+//@ func (*agentRegisterHandler).registerInternalAgent
+//@   requires registerRequest != nil
+//@   ensures [invalid-event-403-before-create] delta(Render403InvalidEvent) >= 1 ==> delta(Render403InvalidEvent) == 1 && delta(CreateInternal) == 0 && delta(IntRegister) == 0 && delta(RegisterReply) == 0
+//@   ensures [create-only-validated-events] delta(CreateInternal) >= 1 ==> delta(CreateInternal) == 1 && (forall i int :: 0 <= i && i < len(old(registerRequest.Events)) ==> old(registerRequest.Events)[i] == "INVOKE")
+//@   ensures [closed-403] delta(CreateClosed) == 1 ==> delta(Render403Closed) == 1 && delta(IntRegister) == 0 && delta(RegisterReply) == 0
+//@   ensures [limit-403] delta(CreateTooMany) == 1 ==> delta(Render403TooMany) == 1 && delta(IntRegister) == 0 && delta(RegisterReply) == 0
+//@   ensures [collision-403] delta(CreateCollision) == 1 ==> delta(Render403InvalidState) == 1 && delta(IntRegister) == 0 && delta(RegisterReply) == 0
+//@   ensures [any-create-failure-no-register] delta(CreateFailed) == 1 ==> delta(IntRegister) == 0 && delta(RegisterReply) == 0
+//@   ensures [accepted-replies] delta(Render403) == 0 && delta(CreateFailed) == 0 ==> delta(CreateInternal) == 1 && delta(IntRegister) == 1 && delta(IntRegisterRefused) == 0 && delta(RegisterReply) == 1
+//@   loop range registerRequest.Events: invariant delta(CreateInternal) == 0 && delta(IntRegister) == 0 && delta(Render403) == 0 && delta(Render403InvalidEvent) == 0 && delta(Render403InvalidState) == 0 && delta(Render403Closed) == 0 && delta(Render403TooMany) == 0 && delta(RegisterReply) == 0 && delta(CreateClosed) == 0 && delta(CreateTooMany) == 0 && delta(CreateCollision) == 0 && delta(CreateFailed) == 0 && delta(IntRegisterRefused) == 0 && unchanged(registerRequest.Events) && (forall i int :: 0 <= i && i <= rangeindex ==> registerRequest.Events[i] == "INVOKE")
+
+// the registration reply carries the function name, version and handler the platform was initialised with
+//@ functype responseModifier
+//@   modifies a0.AccountID
+//@ func (*agentRegisterHandler).respondWithAccountID$1
+//@   modifies resp.AccountID
+//@ func (*agentRegisterHandler).renderResponse
+//@   ensures [metadata-unchanged-in-reply] delta(ReplyJSON) == 1 && delta(ReplyEqualsMetadata) == 1
+//@   loop range respModifiers: invariant delta(ReplyJSON) == 0 && delta(GotMetadata) == 1 && resp != nil && resp.FunctionName == lastret(GotMetadata).FunctionName && resp.FunctionVersion == lastret(GotMetadata).FunctionVersion && resp.Handler == lastret(GotMetadata).Handler
+
+//@ event RegisterExternal = call handler.(*agentRegisterHandler).registerExternalAgent
+//@ event RegisterInternal = call handler.(*agentRegisterHandler).registerInternalAgent
+//@ event ExtByNameFound = ret core.(RegistrationService).FindExternalAgentByName when r1
+//@ func parseRegister
+//@   ensures [result-or-error] r1 == nil ==> r0 != nil
+//@ func (*agentRegisterHandler).ServeHTTP
+//@   ensures [empty-name-403] hdr(request.Header, LambdaAgentName) == "" ==> delta(Render403) == 1 && delta(RegisterExternal) == 0 && delta(RegisterInternal) == 0
+//@   ensures [one-kind] delta(RegisterExternal) + delta(RegisterInternal) <= 1
+//@   ensures [external-iff-launched-by-platform] (delta(RegisterExternal) == 1 ==> delta(ExtByNameFound) == 1) && (delta(RegisterInternal) == 1 ==> delta(ExtByNameFound) == 0)
+//@   loop range parseRegistrationFeatures(request): invariant delta(Render403) == 0 && delta(RegisterExternal) == 0 && delta(RegisterInternal) == 0 && delta(ExtByNameFound) == 0
